@@ -13,8 +13,12 @@ import (
 // C05: receipt only of proven, unaltered, unexpired counterparty packets — a mutation lattice over reachable states.
 func init() { core.Register("C05", "model_checking", runC05) }
 
-func c05Scenario(c *core.C, routes []int, timeouts []int) *PL {
+func c05Scenario(c *core.C, routes []int, timeouts []int, payloads ...int) *PL {
 	sc := macro(&PL{Routes: routes, MaxSend: 2, MaxCommits: 3, Close: true, TimeoutIn: timeouts, DataKinds: []string{"ok"}})
+	if len(payloads) > 0 {
+		sc.Payloads = payloads[0]
+		sc.MaxSend = 1
+	}
 	sc.Movers = []string{"freezeB", "expireB"}
 	var mu sync.Mutex
 	full := false
@@ -39,12 +43,14 @@ func runC05(c *core.C) {
 		{Name: "v1-unordered", Sc: c05Scenario(c, []int{rV1U}, []int{0, 1}), Cfg: ksim.Config{MaxDepth: 5 + d}, Share: 0.25},
 		{Name: "v1-ordered", Sc: c05Scenario(c, []int{rV1O}, []int{0, -1}), Cfg: ksim.Config{MaxDepth: 5 + d}, Share: 0.33},
 		{Name: "v2-client", Sc: c05Scenario(c, []int{rV2C}, []int{0, 1}), Cfg: ksim.Config{MaxDepth: 5 + d}, Share: 0.5},
-		{Name: "v2-alias", Sc: c05Scenario(c, []int{rV2A}, []int{0, 1}), Cfg: ksim.Config{MaxDepth: 5 + d}},
+		{Name: "v2-alias", Sc: c05Scenario(c, []int{rV2A}, []int{0, 1}), Cfg: ksim.Config{MaxDepth: 5 + d}, Share: 0.6},
+		{Name: "v2-client/2-payloads", Sc: c05Scenario(c, []int{rV2C}, []int{0, 1}, 2), Cfg: ksim.Config{MaxDepth: 4 + d}, Share: 0.6},
+		{Name: "v2-alias/3-payloads", Sc: c05Scenario(c, []int{rV2A}, []int{0}, 3), Cfg: ksim.Config{MaxDepth: 4 + d}},
 	}
 	ksim.RunParts(c, parts, [][]ksim.Op{
 		{{K: "send", A: []int{0, 0, 1}}, {K: "sync", A: []int{0}}, {K: "move", A: []int{0}}},
 	})
-	c.Set("alphabet", "states: send(timeout far | next destination block) | sync(A|B) | recv | close(B end) | freeze destination client by misbehaviour | expire destination client; in every state, for every sent packet and every stored consensus height: the honest MsgRecvPacket and every single-field mutant (data, timeout height/timestamp/revision, sequence, each identifier -> existing sibling, payload fields/order/count, proof bytes, proofs of other keys, every other proof height)")
+	c.Set("alphabet", "states: send(timeout far | next destination block) | sync(A|B) | recv | close(B end) | freeze destination client by misbehaviour | expire destination client; in every state, for every sent packet and every stored consensus height: the honest MsgRecvPacket and every single-field mutant (data, timeout height/timestamp/revision, sequence, each identifier -> existing sibling, payload fields/order/count, 512 forged values per payload position of multi-payload packets, proof bytes, proofs of other keys, every other proof height)")
 	c.Set("mutants_note", "proof bytes: every 97th byte is flipped in every state, every byte (lsb and msb) in the first accepting state of each part")
 	c.Assume("counterparty consensus, storage commit and validator signing are played by the harness; the reference predicate reads channel/client state through the keepers and commitments from the harness's record of the source chain")
 	_ = channeltypes.OPEN
